@@ -323,6 +323,17 @@ def check_C14(tier, seed):
             if l.startswith("FAIL"):
                 failures.append(ProbeFailure(f"C14:behaviour:{l.split()[1]}", l[:300], prog, "no FAIL line", l[:300]))
 
+    # helper attributes of a requested derive and repeated attributes of one name, through soa_attr
+    prog = dg.serde_attr_program()
+    ok, out, err = probes.build_and_run("derive_serde_attr", prog)
+    evaluations += 1
+    if not ok or "DONE" not in out:
+        first = next((l for l in err.splitlines() if l.startswith("error")), err[:200])
+        failures.append(ProbeFailure("C14:attr:compile", f"soa_attr with helper attributes of a requested derive / repeated attributes does not compile / run: {first}", prog, "runs", "rejected"))
+    for l in out.splitlines():
+        if l.startswith("FAIL"):
+            failures.append(ProbeFailure(f"C14:attr:{l.split()[1]}", l[:300], prog, "no FAIL line", l[:300]))
+
     def widen():
         fs, _, _, _ = run_derive_cases(dg.cases("thorough", seed + 1), "widen")
         return fs
